@@ -74,13 +74,21 @@ func Install(seed uint64, intensity int, sites map[string]bool) {
 		if int(r%100) >= intensity {
 			return
 		}
-		switch (r >> 8) % 3 {
+		switch (r >> 8) % 4 {
 		case 0:
 			runtime.Gosched()
 		case 1:
 			time.Sleep(time.Duration(10+(r>>16)%90) * time.Microsecond)
-		default:
+		case 2:
 			time.Sleep(time.Duration(50+(r>>16)%250) * time.Microsecond)
+		default:
+			// a long pause (whole start-to-end runs of a small process fit in
+			// it) at the rarely reached sites only - every trace passes tracer.send
+			if site == "tracer.send" {
+				time.Sleep(time.Duration(50+(r>>16)%250) * time.Microsecond)
+			} else {
+				time.Sleep(time.Duration(500+(r>>16)%2500) * time.Microsecond)
+			}
 		}
 	})
 }
